@@ -171,4 +171,23 @@ PROPS = {
         "explanation": "Proved: on arrange-stable states output calls return the state unchanged, so every call sequence is pure "
                        "(Sqlize.C08.calls_pure); stability of reachable states and process-independence are decided by the calls suite and fresh-process repeats.",
     },
+
+    "C12": {
+        "level": "proof",
+        "lean_modules": ["SqlizeModel.Props.C12"],
+        "theorems": ["Sqlize.C12.up_zero", "Sqlize.C12.up_nonzero", "Sqlize.C12.down_zero", "Sqlize.C12.down_nonzero", "Sqlize.C12.with_version", "Sqlize.C12.call_shape", "Sqlize.C12.default_table_skipped"],
+        "suites": [{"name": "version"}],
+        "corr_points": None,
+        "rule": "grid: 3 dialects x 2 keyword cases x 10 table names (default, custom, blanks, quotes, '%s', non-ASCII, empty) x 7 versions (0, +-1, 42, a "
+                "timestamp, MaxInt64, MinInt64) x 2 dirty values on an empty instance; 200 (2000) diffed instances from the pair space with random "
+                "(table, version, dirty); 12 histories containing the bookkeeping table (default and custom name) on the old / new / both sides. Every "
+                "case: Go StringUp/DownWithVersion = model (regenerated templates) and = plain migration + newline + declarative statement of "
+                "Spec/Version.lean. non-trivial = every case; distinct by input tuple",
+        "trusted_base": COMMON_TB + ["regenerated facts: version templates per dialect and the argument order of the four fmt.Sprintf calls in sqlize.go (factgen)",
+                                     "fmt.Sprintf %s %d %t modelled by Impl/Render.sprintf; strings.ToLower modelled for ASCII"],
+        "assumptions": ["table names are byte strings inserted verbatim; versions are int64"],
+        "explanation": "Proved over the regenerated templates for every table name / version / dirty / dialect / case: the model's statements are exactly "
+                       "the declarative ones; tied by the full grid and random diffed instances. The exclusion clause holds for the default name "
+                       "(theorem) and fails for a configured name (recorded finding).",
+    },
 }
